@@ -276,6 +276,19 @@ C09Step ==
           \cup Tag(unhandled, "unhandled_failure_not_error_status")
           \cup Tag(zombies, "service_alive_after_exit_or_stop")
 
+--------------------------------------------------------------------------
+(* Prop C14 on one driver step: stop() releases everything, nothing is delivered afterwards *)
+C14Step ==
+  LET quiet == \A i \in 1..Len(out') : out'[i].k \notin {"act", "ax", "on_transition", "event", "subscriber", "sched", "arm", "invoke"}
+  IN Tag(status = status' \/ <<status, status'>> \in AllowedStatus, "status_transition")
+     \cup Tag(lastStep'.op = "stop" => (timers' = {} /\ svcs' = {} /\ busy' = 0
+                                        /\ status' = IF status = "uninitialized" THEN "uninitialized" ELSE "stopped"),
+              "stop_releases_everything")
+     \cup Tag(status = "stopped" => (quiet /\ config' = config /\ ctx' = ctx /\ status' = "stopped"
+                                     /\ timers' = {} /\ svcs' = {}), "activity_after_stop")
+     \cup Tag((status \in {"done", "error"} /\ lastStep'.op = "send") => (quiet /\ config' = config /\ queue' = queue),
+              "send_after_end")
+
 OnS(p, v) == IF p \in PropSetS THEN v ELSE {}
 SProj == [config |-> config, hist |-> hist, status |-> status, ctx |-> ctx, output |-> output,
           queue |-> [i \in 1..Len(queue) |-> queue[i].type], now |-> now, busy |-> busy,
@@ -288,5 +301,6 @@ SProj2 == [config |-> config', hist |-> hist', status |-> status', ctx |-> ctx',
 EmitS == PrintT(ToJson([mi |-> mi, from |-> SProj, step |-> lastStep', to |-> SProj2, out |-> out',
                         prop |-> [C08 |-> OnS("C08", C08Step),
                                   C09 |-> OnS("C09", C09Step),
+                                  C14 |-> OnS("C14", C14Step),
                                   C01 |-> OnS("C01", Tag(status' \in {"running", "done"} => Legal(config'), "final"))]]))
 =============================================================================
